@@ -298,7 +298,7 @@ Proof.
 Qed.
 
 (* A try block enters its handler exactly when its body lets an exception escape that its filter
-   admits; the handler is then entered once, with that exception bound. *)
+   accepts; the handler is then entered once, with that exception bound. *)
 Lemma handler_runs_iff : forall d b fs h t r,
   eval d (PTry b fs h) t r ->
   forall t1 r1, eval (S d) b t1 r1 ->
@@ -327,7 +327,7 @@ Proof.
 Qed.
 
 (* A non-matching exception continues to the nearest enclosing matching handler: wrap a raising
-   program in blocks that do not admit the exception (pre), then one that does, then anything. *)
+   program in blocks that do not accept the exception (pre), then one that does, then anything. *)
 Lemma chain_app : forall l1 l2 p, chain (l1 ++ l2) p = chain l2 (chain l1 p).
 Proof. induction l1 as [|[fs h] l1 IH]; intros l2 p; cbn; [reflexivity | apply IH]. Qed.
 
